@@ -30,7 +30,7 @@ ASCII_CHARS = "abcdefghijklmnopqrstuvwxyzABCDEFGHIJKLMNOPQRSTUVWXYZ0123456789 !\
 
 
 def plan(tier: str, seed: int) -> list[dict]:
-    n, per = (16, 190) if tier == "quick" else (64, 790)
+    n, per = (32, 250) if tier == "quick" else (64, 790)
     shards = [{"kind": "random", "seed": seed * 100_000 + i, "n": per} for i in range(n)]
     if tier == "thorough":
         shards += [{"kind": "sweep", "rom": rom, "delta": d} for rom in ("low", "high") for d in range(-3, 4)]
